@@ -152,6 +152,19 @@ type SignatureVerification struct {
 	VerifyTimestamp   TimestampOption                     `json:"verifyTimestamp,omitempty"`
 }
 
+// clone returns a deep copy of signatureVerification, so that the override
+// map is not shared with the original.
+func (signatureVerification SignatureVerification) clone() SignatureVerification {
+	if signatureVerification.Override != nil {
+		override := make(map[ValidationType]ValidationAction, len(signatureVerification.Override))
+		for k, v := range signatureVerification.Override {
+			override[k] = v
+		}
+		signatureVerification.Override = override
+	}
+	return signatureVerification
+}
+
 type errPolicyNotExist struct{}
 
 func (e errPolicyNotExist) Error() string {
